@@ -16,7 +16,7 @@ LEVEL_TEXT = ('PARTIAL. Decided statically: for N=1 the forward and inverse quer
               'pair y = L + x(U-L), x = (y-L)/(U-L); the box->cube and cube->box transforms are algebraic inverses; '
               'both directions iterate the configured number of levels with the same radix, the inverse accumulating '
               'x += digit * B^-(j+1); GetInverseImage and GetPreimages have the same summaries; the inverse queries '
-              'establish a float working array. The evolvent keeps no process-wide state; the inverse queries make no exact equality test on a transformed coordinate and reject no point by a range test on it. NOT decided: that the number rule mirrors the node rule for N >= 2.')
+              'establish a float working array. The evolvent keeps no process-wide state; the inverse queries make no exact equality test on a transformed coordinate and reject no point by a range test on it; the bound arrays are private copies (both directions keep answering for the configured box). NOT decided: that the number rule mirrors the node rule for N >= 2.')
 EXPLANATION = ('Path summaries of the two queries with N fixed to 1 are compared with the affine formulas by '
                'cross-multiplication; the composition of the two coordinate transforms is reduced to the identity; '
                'the per-level accumulation of the inverse descent is normalised for two levels; sibling agreement is '
@@ -348,6 +348,11 @@ def check(ctx: Ctx):
         r09_6(ctx)
     if C.want(ctx, 'R09.5'):
         evo.rule_no_shared_state(ctx, 'R09.5')
+    if C.want(ctx, 'R09.8'):
+        ctx.rule('R09.8', 'image and inverse image answer for the same box as long as nobody re-configures the evolvent: '
+                          'the bound arrays are private copies taken by the constructor / SetBounds (= R06.11), re-run '
+                          'here')
+        evo.rule_box_copied(ctx, 'R09.8')
     if C.want(ctx, 'R09.1'):
         r09_1(ctx)
     if C.want(ctx, 'R09.2'):
